@@ -1,8 +1,8 @@
 #!/verif/.venv/bin/python
 # Replay of a solver counterexample against the unmodified code (no shims).
-# property=C02 kernel=step label=c02:seq_duration_fall
+# property=C02 kernel=step label=c02:inv_max_len
 import sys
 sys.path[:0] = ['/repo' + "/pulser-core", '/repo' + "/pulser-simulation", "/verif"]
 from symx.replay import replay
-sys.exit(replay(check='checks.c02', kernel='step', shape={'own': {'clock': 1, 'local': False, 'slots': ['pulseA'], 'mod': True, 'pj': 'custom', 'targets_a': ['q0'], 'targets_b': ['q1']}, 'op': ['add_delay'], 'maxseq': True, 'nbarriers': 1},
-                assignment={'max_sequence_duration': 2, 'own.min_duration': 1, 'own.tr': 1, 'own.pjt': 0, 'own.s0.dur': 1, 'new.delay': 1, 'buf#1.start': 0, 'buf#1.end': 1, 'buf#2.start': 0, 'buf#2.end': 0}, label='c02:seq_duration_fall'))
+sys.exit(replay(check='checks.c02', kernel='step', shape={'own': {'clock': 4, 'local': False, 'slots': [], 'mod': True, 'pj': 'custom', 'maxd': True, 'targets_a': ['q0'], 'targets_b': ['q1']}, 'op': ['add_delay'], 'maxseq': False, 'nbarriers': 1},
+                assignment={'own.min_duration': 5, 'own.max_duration': 5, 'own.tr': 1, 'own.pjt': 0, 'new.delay': 5}, label='c02:inv_max_len'))
